@@ -1,4 +1,6 @@
 """C20 - query services return exactly the selected states and texts."""
+import time
+
 from lib import coqlit
 
 HEADER = ('From Coq Require Import List ZArith Bool.\nImport ListNotations.\n'
@@ -8,17 +10,9 @@ HEADER = ('From Coq Require Import List ZArith Bool.\nImport ListNotations.\n'
 FILES = ('70041_MDIB_Final.xml', 'mdib_two_mds.xml')
 
 
-def gen_queries(rng, world, n):
-    qs = []
-    pools = None
-    for _ in range(n):
-        kind = rng.choice(['state', 'ctx'])
-        qs.append({'kind': kind, 'handles': None})
-    return qs
-
-
-def fill_queries(rng, info, n):
-    """handle lists over existing descriptor handles, context state handles, MDS handles, unknown and duplicated ones"""
+def fill_queries(rng, info, n, hot=()):
+    """handle lists over existing descriptor handles, context state handles, MDS handles, unknown and duplicated ones;
+    hot: handles that deserve extra attention (what changed since the previous phase)"""
     dhs = info['all_handles']
     ctx_dhs = sorted({c['dh'] for c in info['cstates']})
     cs = sorted(c['handle'] for c in info['cstates'])
@@ -29,7 +23,9 @@ def fill_queries(rng, info, n):
         hs = []
         for _ in range(k):
             r = rng.random()
-            if r < 0.3:
+            if hot and rng.random() < 0.2:
+                hs.append(rng.choice(hot))
+            elif r < 0.3:
                 hs.append(rng.choice(dhs))
             elif r < 0.5 and ctx_dhs:
                 hs.append(rng.choice(ctx_dhs))
@@ -116,64 +112,244 @@ def text_oracle(case, ids):
     return None
 
 
+
+# ---------------------------------------------------------------- histories on one storage, through the handlers
+WN = ['xs', 's', 'm', 'l', 'xl', 'xxl']
+LANGS = ['en', 'de', 'fr', 'it', 'es']
+LINES = ['x', 'y', 'xx']
+
+
+def tkey(t):
+    return (t['ref'], t['lang'], t['ver'], t['width'], t['text'])
+
+
+def gen_filter(rng, ref_pool, lang_pool, stored):
+    kind = rng.choice(['none', 'none', 'refs', 'langs', 'version', 'mixed', 'mixed', 'size', 'size', 'size', 'size'])
+    f = {'refs': [], 'version': None, 'langs': [], 'widths': [], 'lines': []}
+    vers = sorted({t['ver'] for t in stored if t['ver'] is not None}) or [0]
+    if kind in ('refs', 'mixed', 'size') and (kind == 'refs' or rng.random() < 0.6):
+        f['refs'] = rng.sample(ref_pool + ['zz'], rng.randint(1, min(3, len(ref_pool) + 1)))
+        if rng.random() < 0.15:
+            f['refs'].append(rng.choice(f['refs']))                 # a Ref named twice
+    if kind in ('langs', 'mixed', 'size') and (kind == 'langs' or rng.random() < 0.5):
+        f['langs'] = rng.sample(lang_pool + ['pt'], rng.randint(1, 2))
+    if kind in ('version', 'mixed', 'size') and (kind == 'version' or rng.random() < 0.5):
+        f['version'] = rng.choice(vers + [0, max(vers) + 1])
+    if kind == 'size':
+        m = rng.choice(['w', 'l', 'wl'])
+        if 'w' in m:
+            f['widths'] = rng.sample(range(6), rng.randint(1, 3))
+        if 'l' in m:
+            f['lines'] = rng.sample([0, 1, 2, 3, 4], rng.randint(1, 2))
+    return f
+
+
+def gen_history(rng, n_ops):
+    """add (new Ref / known Ref + new language / width or line-count variant / new version / exact duplicate, also the
+    same Python object again) interleaved with GetSupportedLanguages and GetLocalizedText"""
+    ref_pool = [f'r{i}' for i in range(rng.randint(2, 4))]
+    lang_pool = LANGS[:rng.randint(2, 5)]
+    stored, ops, n = [], [], 0
+
+    def text(nl=None):
+        nl = nl or rng.choice([1, 1, 2, 3])
+        return '\n'.join(rng.choice(LINES) for _ in range(nl))
+
+    def one_add():
+        nonlocal n
+        kinds = ['new_ref', 'random']
+        if stored:
+            kinds += ['new_lang', 'new_lang', 'variant', 'variant', 'variant', 'new_version', 'dup', 'same']
+        k = rng.choice(kinds)
+        base = rng.choice(stored) if stored else None
+        t = {'text': text(), 'lang': rng.choice(lang_pool), 'ref': rng.choice(ref_pool),
+             'ver': rng.choice([None, 0, 1, 1, 2]), 'width': rng.choice([None, 0, 1, 2, 3, 4, 5])}
+        if k == 'new_ref':
+            unused = [r for r in ref_pool if all(s['ref'] != r for s in stored)]
+            if unused:
+                t['ref'] = rng.choice(unused)
+        elif k == 'new_lang':
+            unused = [x for x in lang_pool if all(s['lang'] != x for s in stored)]
+            t.update(ref=base['ref'], ver=base['ver'], lang=rng.choice(unused or lang_pool))
+        elif k == 'variant':                       # equal Ref + Lang + Version, other width / number of lines
+            t.update(ref=base['ref'], lang=base['lang'], ver=base['ver'])
+            if rng.random() < 0.3:
+                t['text'] = base['text']
+        elif k == 'new_version':
+            t.update(ref=base['ref'], lang=base['lang'], ver=(base['ver'] or 0) + rng.choice([1, 1, 2]))
+        elif k in ('dup', 'same'):
+            t = {x: base[x] for x in ('text', 'lang', 'ref', 'ver', 'width')}
+            if k == 'same':
+                t['same'] = base['n']
+        t['n'] = n
+        t['kind'] = k
+        n += 1
+        stored.append(t)
+        return t
+
+    for _ in range(n_ops):
+        r = rng.random()
+        if r < 0.45 or not ops:
+            ops.append({'op': 'add', 'texts': [one_add() for _ in range(rng.choice([1, 1, 1, 2, 3]))]})
+        elif r < 0.65:
+            ops.append({'op': 'langs'})
+        else:
+            ops.append({'op': 'text', 'filter': gen_filter(rng, ref_pool, lang_pool, stored)})
+    return {'ops': ops, 'ctor': rng.random() < 0.3, 'ref_pool': ref_pool, 'lang_pool': lang_pool}
+
+
+def hist_text_oracle(stored, f, got):
+    """the C20 clauses for one GetLocalizedText answer (got: list of content keys) against the texts stored at that moment"""
+    from collections import Counter
+    have = Counter(tkey(t) for t in stored)
+    vers = [t['ver'] for t in stored if t['ver'] is not None]
+    eff = f['version'] if f['version'] is not None else (max(vers) if vers else None)
+
+    def tw(k):
+        return k[3] if k[3] is not None else 999
+
+    def nol(k):
+        return len(k[4].split('\n'))
+    for k in got:
+        if k not in have:
+            return 'not stored', f'the answer contains {k} which is not a stored text'
+        if f['refs'] and k[0] not in f['refs']:
+            return 'ref', f'the answer contains {k}: Ref was not requested'
+        if f['langs'] and k[1] not in f['langs']:
+            return 'lang', f'the answer contains {k}: language was not requested'
+        if k[2] != eff:
+            return 'version', f'the answer contains {k} but version {eff} was requested / is the latest'
+        if f['widths'] and not any(tw(k) <= w for w in f['widths']):
+            return 'width', f'the answer contains {k}: wider than every requested width'
+        if f['lines'] and not any(nol(k) <= n for n in f['lines']):
+            return 'lines', f'the answer contains {k}: more lines than every requested number of lines'
+    base = Counter({k: c for k, c in have.items()
+                    if (not f['refs'] or k[0] in f['refs']) and (not f['langs'] or k[1] in f['langs']) and k[2] == eff})
+    gc = Counter(got)
+    if not f['widths'] and not f['lines']:
+        missing = base - gc
+        if missing:
+            return 'missing', (f'no width / lines constraint: {sum(base.values())} stored texts are selected, the answer has '
+                               f'{len(got)}; missing {sorted(missing.elements(), key=repr)[:4]}')
+        if len(set(f['refs'])) == len(f['refs']) and gc != base:
+            return 'repeated', (f'no width / lines constraint, each Ref named once: returned more often than stored: '
+                                f'{sorted((gc - base).elements(), key=repr)[:4]}')
+        return None
+    # with size constraints: every (Ref, Lang) group that has an admissible text for a requested width / number of
+    # lines (combination) is represented in the answer by a text admissible for it
+    groups = {}
+    for k in base:
+        groups.setdefault((k[0], k[1]), []).append(k)
+    for g, ks in sorted(groups.items()):
+        for w in f['widths'] or [None]:
+            for n in f['lines'] or [None]:
+                def adm(k, w=w, n=n):
+                    return (w is None or tw(k) <= w) and (n is None or nol(k) <= n)
+                if any(adm(k) for k in ks) and not any((k[0], k[1]) == g and adm(k) for k in got):
+                    return 'group not served', (f'texts of {g} fit width<={w} lines<={n} '
+                                                f'({[k for k in ks if adm(k)][:3]}) but the answer has none of them')
+    return None
+
+
 def run(ctx):
+    t0 = time.time()
+
+    def lap(what):
+        ctx.log(f'{what}: {time.time() - t0:.0f}s since start')
     if not ctx.prove():
         ctx.broken('theorem', 'Props/C20.v', ctx.proof_error)
-    nq = ctx.n(60, 800)
+    nq = ctx.n(44, 600)
     # phase 1: learn the tables, phase 2: the queries
     worlds = [{'mdib': f, 'flag': flag, 'queries': []} for f in FILES for flag in (True, False)]
-    probe = ctx.impl('c20_impl', {'worlds': worlds}, timeout=600)
+    # the tables do not depend on the contextstates_in_getmdib flag: one probe world per MDIB file
+    probe = ctx.impl('c20_impl', {'worlds': [{'mdib': f, 'flag': True, 'queries': []} for f in FILES]}, timeout=600)
     if probe.get('_crash'):
         ctx.broken('correspondence', 'queries: implementation run crashed', probe['stderr'][-800:])
         return ctx.finish('implementation run crashed', [], [])
-    for wq, info in zip(worlds, probe['worlds']):
+    by_file = {info['mdib']: info for info in probe['worlds']}
+    for wq, info in ((wq, by_file[wq['mdib']]) for wq in worlds):
         wq['queries'] = fill_queries(ctx.rng, info, nq)
+        # phase 2 (after the MDIB changed): handle lists over the old AND the new tables - the removed descriptor is
+        # now an unknown handle, the new context states are known
+        info2 = dict(info, cstates=info['cstates'] + [c for c in info['cstates2'] if c not in info['cstates']])
+        hot = list(info['removed']) + sorted({c['handle'] for c in info['cstates2']} - {c['handle'] for c in info['cstates']})
+        # ... a third of them repeat a request of phase 1 literally (an answer remembered per request would be stale)
+        wq['queries2'] = [dict(ctx.rng.choice(wq['queries'])) if ctx.rng.random() < 0.35 else q
+                          for q in fill_queries(ctx.rng, info2, nq // 2, hot)]
     res = ctx.impl('c20_impl', {'worlds': worlds}, timeout=900)
     if res.get('_crash'):
         ctx.broken('correspondence', 'queries: implementation run crashed', res['stderr'][-800:])
         return ctx.finish('implementation run crashed', [], [])
+    lap('queries: implementation runs done')
     cases, keys, kinds = [], [], {}
-    for info in res['worlds']:
+    phase_hist = {'phase1': 0, 'phase2': 0, 'phase2_removed_handle': 0, 'phase2_new_context_state': 0}
+    for world in res['worlds']:
         hid = {}
 
         def h(s, hid=hid):
             if s not in hid:
                 hid[s] = len(hid) + 1
             return hid[s]
-        for s in info['states'] + info['cstates']:
+        for s in world['states'] + world['cstates'] + world['states2'] + world['cstates2']:
             h(s['handle']), h(s['dh']), h(s['mds'])
-        for m in info['mds'] + info['all_handles']:
+        for m in world['mds'] + world['all_handles'] + world['all_handles2']:
             h(m)
 
         def ql(s):
             return f'mkQ {"true" if s["ctx"] else "false"} {h(s["handle"])} {h(s["dh"])} {h(s["mds"])}'
-        mlit = ('(mkQM [' + '; '.join(ql(s) for s in info['states']) + '] [' + '; '.join(ql(s) for s in info['cstates']) +
-                '] [' + '; '.join(str(h(m)) for m in info['mds']) + '])')
-        name = f'm_{len(kinds)}'
-        kinds[name] = mlit
-        for qr in info['queries']:
-            q = qr['q']
-            if 'error' in qr:
-                ctx.fail(f'{q["kind"]} query {q["handles"]} failed: {qr["error"]}', {'stream': 'queries', 'clause': 'error'},
-                         {'stream': 'queries', 'case': {'mdib': info['mdib'], 'flag': info['flag'], 'query': q}})
-                continue
-            got = sorted(qr['items'])
-            want = spec(info, q)
-            if got != want:
-                extra = [x for x in got if x not in want or got.count(x) > 1]
-                missing = [x for x in want if x not in got]
-                ctx.fail(f'{"GetMdState" if q["kind"] == "state" else "GetContextStates"}({q["handles"]}) on {info["mdib"]} '
-                         f'(context states in GetMdib: {info["flag"]}): unexpected/duplicated {extra[:4]}, missing {missing[:4]}',
-                         {'stream': 'queries', 'kind': q['kind'],
-                          'clause': 'duplicate' if len(got) != len({tuple(x) for x in got}) else ('extra' if extra else 'missing')},
-                         {'stream': 'queries', 'case': {'mdib': info['mdib'], 'flag': info['flag'], 'query': q},
-                          'impl': got[:40], 'spec': want[:40]})
-            hl = '[' + '; '.join(str(h(x)) for x in q['handles']) + ']'
-            enc = coqlit(sorted(2 * h(x[1]) + (1 if x[0] else 0) for x in qr['items']))
-            fn = (f'enc (get_md_state {"true" if info["flag"] else "false"} {name} {hl})' if q['kind'] == 'state'
-                  else f'enc (get_context_states {name} {hl})')
-            cases.append((fn, enc))
-            keys.append((info['mdib'], info['flag'], q['kind'], tuple(q['handles'])))
+        new_cs = {c['handle'] for c in world['cstates2']} - {c['handle'] for c in world['cstates']}
+        for phase in (1, 2):
+            info = world if phase == 1 else dict(world, states=world['states2'], cstates=world['cstates2'],
+                                                 all_handles=world['all_handles2'])
+            mlit = ('(mkQM [' + '; '.join(ql(s) for s in info['states']) + '] [' + '; '.join(ql(s) for s in info['cstates']) +
+                    '] [' + '; '.join(str(h(m)) for m in info['mds']) + '])')
+            name = f'm_{len(kinds)}'
+            kinds[name] = mlit
+            # GetMdib / GetMdDescription without handles: the whole content as it is at that moment
+            whole = world['whole' if phase == 1 else 'whole2']
+            wrep = {'stream': 'queries', 'case': {'mdib': info['mdib'], 'flag': info['flag'], 'phase': phase}, 'impl': whole}
+            if 'error' in whole:
+                ctx.fail(f'GetMdib / GetMdDescription failed: {whole["error"]}', {'stream': 'queries', 'clause': 'error'}, wrep)
+            else:
+                want = sorted([[False, s['handle']] for s in info['states']] +
+                              ([[True, c['handle']] for c in info['cstates']] if info['flag'] else []))
+                if sorted(whole['states']) != want:
+                    ctx.fail(f'GetMdib on {info["mdib"]} (phase {phase}): the states in the answer are not the states of the MDIB: '
+                             f'missing {[x for x in want if x not in whole["states"]][:4]}, '
+                             f'unexpected {[x for x in whole["states"] if x not in want][:4]}',
+                             {'stream': 'queries', 'kind': 'getmdib', 'clause': 'states'}, wrep)
+                if whole['descriptors'] != info['all_handles']:
+                    ctx.fail(f'GetMdDescription() on {info["mdib"]} (phase {phase}): descriptors in the answer differ from the MDIB: '
+                             f'{sorted(set(whole["descriptors"]) ^ set(info["all_handles"]))[:6]}',
+                             {'stream': 'queries', 'kind': 'getmddescription', 'clause': 'descriptors'}, wrep)
+            for qr in world['queries' if phase == 1 else 'queries2']:
+                q = qr['q']
+                phase_hist[f'phase{phase}'] += 1
+                if phase == 2:
+                    phase_hist['phase2_removed_handle'] += any(x in world['removed'] for x in q['handles'])
+                    phase_hist['phase2_new_context_state'] += any(x in new_cs for x in q['handles'])
+                if 'error' in qr:
+                    ctx.fail(f'{q["kind"]} query {q["handles"]} failed: {qr["error"]}', {'stream': 'queries', 'clause': 'error'},
+                             {'stream': 'queries', 'case': {'mdib': info['mdib'], 'flag': info['flag'], 'phase': phase, 'query': q}})
+                    continue
+                got = sorted(qr['items'])
+                want = spec(info, q)
+                if got != want:
+                    extra = [x for x in got if x not in want or got.count(x) > 1]
+                    missing = [x for x in want if x not in got]
+                    ctx.fail(f'{"GetMdState" if q["kind"] == "state" else "GetContextStates"}({q["handles"]}) on {info["mdib"]} '
+                             f'(context states in GetMdib: {info["flag"]}{", after the MDIB changed" if phase == 2 else ""}): '
+                             f'unexpected/duplicated {extra[:4]}, missing {missing[:4]}',
+                             {'stream': 'queries', 'kind': q['kind'],
+                              'clause': 'duplicate' if len(got) != len({tuple(x) for x in got}) else ('extra' if extra else 'missing')},
+                             {'stream': 'queries', 'case': {'mdib': info['mdib'], 'flag': info['flag'], 'phase': phase, 'query': q},
+                              'impl': got[:40], 'spec': want[:40]})
+                hl = '[' + '; '.join(str(h(x)) for x in q['handles']) + ']'
+                enc = coqlit(sorted(2 * h(x[1]) + (1 if x[0] else 0) for x in qr['items']))
+                fn = (f'enc (get_md_state {"true" if info["flag"] else "false"} {name} {hl})' if q['kind'] == 'state'
+                      else f'enc (get_context_states {name} {hl})')
+                cases.append((fn, enc))
+                keys.append((info['mdib'], info['flag'], q['kind'], tuple(q['handles']), phase))
     header = HEADER + '\n'.join(f'Definition {n} : qmdib := {l}.' for n, l in kinds.items())
     mism, err = ctx.coq_mism('queries', header, 'zl_eqb', 'fun x => x', cases, shard=120, deps=['Query/Model.vo'])
     if err:
@@ -183,10 +359,11 @@ def run(ctx):
         ctx.broken('correspondence', 'queries: model vs implementation',
                    {'disagreements': len(mism), 'first': keys[i], 'impl': cases[i][1][:500],
                     'model': ctx.coq_eval(header, cases[i][0])[-500:]})
-    ctx.count('queries', len(cases), keys, worlds=len(res['worlds']),
+    ctx.count('queries', len(cases), keys, worlds=len(res['worlds']), phases=phase_hist,
               handle_list_lengths={str(k): sum(1 for x in keys if len(x[3]) == k) for k in range(6)})
     ctx.sample({'stream': 'queries', 'query': keys[1] if len(keys) > 1 else None, 'result': cases[1][1] if len(cases) > 1 else None})
 
+    lap('queries: model evaluated')
     # ---------------------------------------------------------------- localized texts
     tcases = [gen_text_case(ctx.rng) for _ in range(ctx.n(400, 6000))]
     tres = ctx.impl('c20_impl', {'worlds': [], 'texts': tcases}, timeout=600)
@@ -243,6 +420,118 @@ def run(ctx):
                         'model': ctx.coq_eval(HEADER, lits[i][0])[-300:]})
         ctx.count('texts', len(tcases), [repr(c) for c in tcases], histogram=hist)
         ctx.sample({'stream': 'texts', 'case': tcases[0], 'impl': tres['texts'][0]})
+
+    lap('texts done')
+    # ---------------------------------------------------------------- histories through the real service handlers
+    from collections import Counter
+    hcases = [gen_history(ctx.rng, ctx.rng.randint(10, 26)) for _ in range(ctx.n(60, 900))]
+    hres = ctx.impl('c20_impl', {'worlds': [], 'hist': hcases}, timeout=900)
+    lap('text_histories: implementation run done')
+    if hres.get('_crash') or len(hres.get('hist', [])) != len(hcases):
+        ctx.broken('correspondence', 'text_histories: implementation run crashed', str(hres.get('stderr', hres))[-800:])
+    else:
+        area = hres['area_keys']
+        order = sorted(set(area.values()))
+        bk = ('Definition bk (t : ltext) : Z := match x_width t, x_nol t with ' +
+              ' '.join(f'| Some {wn.split(",")[0]}, {wn.split(",")[1]} => {order.index(v) + 1}' for wn, v in sorted(area.items())) +
+              ' | _, _ => 0 end.\n')
+        hheader = HEADER + bk + 'Definition srt (l : list (list Z)) := map (sort_by (fun x => x)) l.\n'
+        hist = {'add': 0, 'langs': 0, 'text_no_size': 0, 'text_widths': 0, 'text_lines': 0, 'text_both': 0,
+                'ref_named_twice': 0, 'unknown_ref_requested': 0, 'empty_answer': 0, 'answers_with_repeated_text': 0,
+                'langs_after_new_lang_for_known_ref': 0, 'queries_on_store_with_equal_ref_lang_version': 0,
+                'wire_exchanges': 0}
+        addk = Counter()
+        hlits, hkeys = [], []
+        for case, r in zip(hcases, hres['hist']):
+            sid = {x: i + 1 for i, x in enumerate(case['ref_pool'] + ['zz'])}
+            lid = {x: i + 1 for i, x in enumerate(LANGS + ['pt'])}
+            stored, ids, lops, expect = [], {}, [], []
+            answers = iter(r['answers'])
+            langs_asked = False
+            armed = False                  # a new language arrived for a known Ref after GetSupportedLanguages was asked
+            bad = False
+            for oi, op in enumerate(case['ops']):
+                if op['op'] == 'add':
+                    hist['add'] += len(op['texts'])
+                    for t in op['texts']:
+                        addk[t['kind']] += 1
+                        if langs_asked and any(s['ref'] == t['ref'] for s in stored) and all(s['lang'] != t['lang'] for s in stored):
+                            armed = True
+                        stored.append(t)
+                        i = ids.setdefault(tkey(t), len(ids) + 1)
+                        lops.append(f'LAdd (mkT {i} {sid[t["ref"]]} {lid[t["lang"]]} '
+                                    f'{"None" if t["ver"] is None else "(Some " + str(t["ver"]) + ")"} '
+                                    f'{"None" if t["width"] is None else "(Some " + str(t["width"]) + ")"} '
+                                    f'{len(t["text"].split(chr(10)))})')
+                    continue
+                a = next(answers)
+                replay = {'stream': 'text_histories', 'case': {'ctor': case['ctor'], 'ops': case['ops'][:oi + 1]},
+                          'stored_at_that_moment': [list(tkey(t)) for t in stored], 'answer': a}
+                hist['wire_exchanges'] += a.get('wire', 0)
+                if 'error' in a:
+                    ctx.fail(f'{op["op"]} request failed: {a["error"]}', {'stream': 'text_histories', 'clause': 'error'}, replay)
+                    bad = True
+                    break
+                if a.get('wire') != 1 or a.get('status') != [200] or not a.get('to_handler'):
+                    ctx.broken('correspondence', 'text_histories: a request did not cross the loop-back wire exactly once', a)
+                if op['op'] == 'langs':
+                    hist['langs'] += 1
+                    hist['langs_after_new_lang_for_known_ref'] += armed
+                    langs_asked = True
+                    want = sorted({t['lang'] for t in stored})
+                    if sorted(a['langs']) != want:
+                        ctx.fail(f'GetSupportedLanguages answered {sorted(a["langs"])} but the stored languages are {want} '
+                                 f'(history of {oi + 1} operations, last add: '
+                                 f'{[tkey(t) for o in case["ops"][:oi] if o["op"] == "add" for t in o["texts"]][-1:]})',
+                                 {'stream': 'text_histories', 'clause': 'languages'}, replay)
+                    lops.append('LLangs')
+                    expect.append(sorted(lid.get(x, 0) for x in a['langs']))
+                    continue
+                f = op['filter']
+                mode = 'text_both' if f['widths'] and f['lines'] else 'text_widths' if f['widths'] else 'text_lines' if f['lines'] else 'text_no_size'
+                hist[mode] += 1
+                hist['ref_named_twice'] += len(set(f['refs'])) != len(f['refs'])
+                hist['unknown_ref_requested'] += any(all(s['ref'] != x for s in stored) for x in f['refs'])
+                hist['empty_answer'] += not a['texts']
+                hist['queries_on_store_with_equal_ref_lang_version'] += (
+                    len({(t['ref'], t['lang'], t['ver']) for t in stored}) < len({tkey(t) for t in stored}))
+                got = [(x[0], x[1], x[2], WN.index(x[3]) if x[3] in WN else x[3], x[4]) for x in a['texts']]
+                hist['answers_with_repeated_text'] += any(c > Counter(tkey(t) for t in stored)[k] for k, c in Counter(got).items())
+                why = hist_text_oracle(stored, f, got)
+                if why:
+                    ctx.fail(f'GetLocalizedText(refs={f["refs"]}, version={f["version"]}, langs={f["langs"]}, '
+                             f'widths={[WN[x] for x in f["widths"]]}, lines={f["lines"]}) through the service handler, '
+                             f'{len(stored)} texts stored: {why[1]}',
+                             {'stream': 'text_histories', 'clause': why[0], 'mode': mode}, replay)
+                ver = 'None' if f['version'] is None else f'(Some {f["version"]})'
+                lops.append(f'LText {coqlit([sid[x] for x in f["refs"]])} {ver} {coqlit([lid[x] for x in f["langs"]])} '
+                            f'{coqlit(list(f["widths"]))} {coqlit(list(f["lines"]))}')
+                expect.append(sorted(ids.get(k, 0) for k in got))
+            if bad:
+                continue
+            # the storage holds exactly what was added (no request stored or dropped a text)
+            fin = Counter((x[0], x[1], x[2], WN.index(x[3]) if x[3] in WN else x[3], x[4]) for x in r['final'])
+            if fin != Counter(tkey(t) for t in stored):
+                ctx.fail('after the history the storage does not hold exactly the added texts',
+                         {'stream': 'text_histories', 'clause': 'storage content'},
+                         {'stream': 'text_histories', 'case': case, 'final': r['final']})
+            hlits.append((f'srt (run_hist bk [{"; ".join(lops)}] [])',
+                          '[' + '; '.join(coqlit(e) if e else '([] : list Z)' for e in expect) + ']'
+                          if expect else '([] : list (list Z))'))
+            hkeys.append(repr(case['ops']))
+        mism, err = ctx.coq_mism('text_histories', hheader, 'zll_eqb', 'fun x => x', hlits, shard=40, deps=['Query/Model.vo'])
+        if err:
+            ctx.broken('correspondence', 'text_histories (coq evaluation)', err[-1200:])
+        if mism:
+            i = mism[0]
+            ctx.broken('correspondence', 'text_histories: model vs implementation (through the handlers)',
+                       {'disagreements': len(mism), 'first_case': hlits[i][0][:1500], 'impl': hlits[i][1][:600],
+                        'model': ctx.coq_eval(hheader, hlits[i][0])[-600:]})
+        hist['adds_by_kind'] = dict(addk)
+        nq = hist['langs'] + sum(hist[k] for k in ('text_no_size', 'text_widths', 'text_lines', 'text_both'))
+        ctx.count('text_histories', nq, [k + str(j) for k in hkeys for j in range(1)], histories=len(hcases), histogram=hist)
+        ctx.sample({'stream': 'text_histories', 'ops': hcases[0]['ops'][:6], 'answers': hres['hist'][0]['answers'][:3]})
+    lap('text_histories done')
     if ctx.thorough:
         hits = ctx.gate_grep(['Query', 'Common'])
         if hits:
@@ -250,14 +539,60 @@ def run(ctx):
         ctx.coqchk('SDC.Props.C20')
     return ctx.finish(
         rule='queries: GetMdState / GetContextStates through the real consumer service clients over the loop-back transport '
+             '(request serialised -> _on_get_md_state / _on_get_context_states -> response serialised, validated, parsed) '
              'on the single- and the two-MDS MDIB (context states in every MDS, both settings of contextstates_in_getmdib) '
              'for generated handle lists (descriptor / context-descriptor / context-state / MDS / unknown / duplicated '
-             'handles, empty list); result vs the BICEPS rules (oracle) and vs the Coq model; texts: generated stores and '
-             'filter combinations through LocalizationStorage.filter_localized_texts / get_supported_languages vs oracle and '
-             'model; distinct = distinct queries / (store, filter) pairs',
+             'handles, empty list) in TWO phases: between them the MDIB changes (new context states, a metric removed) '
+             'and a third of the phase-2 requests repeat a phase-1 request literally; every answer vs the BICEPS rules on '
+             'the tables of that moment (oracle) and vs the Coq model; GetMdib / GetMdDescription() once per phase: the '
+             'states / descriptors of that moment; texts: generated stores and filter combinations through '
+             'LocalizationStorage.filter_localized_texts / get_supported_languages vs oracle and model; text_histories: '
+             'one LocalizationStorage per history, add() (new Ref, known Ref + new language, width / line-count variants '
+             'with equal Ref+Lang+Version, new versions, exact duplicates, the same object twice, constructor arguments) '
+             'interleaved with GetSupportedLanguages and GetLocalizedText sent by the consumer '
+             'LocalizationServiceClient over the loop-back transport through LocalizationService._on_get_supported_languages '
+             '/ _on_get_localized_text; EVERY answer is judged against the texts stored at that moment (multiset of returned '
+             'texts identified by content: nothing unselected, without width / lines constraint exactly the selection, with '
+             'them every (Ref, Lang) group with an admissible text is served) and compared with run_hist of the Coq model; '
+             'distinct = distinct queries / (store, filter) pairs / histories',
         assumptions=['results are compared as sorted multisets (the state tables are Python sets)',
                      'the sort key used when BOTH widths and lines are given (a Python string repeated n times) enters the '
-                     'model as a rank table computed by Python'],
-        trusted_base=['harness/impl/c20_impl.py', 'model evaluated inside Coq with vm_compute'],
-        not_modelled=['which of several admissible texts is chosen as "best match" is not part of the property (soundness only)',
-                      'the LocalizationService SOAP port type is not offered by the test provider; the storage is driven directly'])
+                     'model as a rank table computed by Python',
+                     'texts that come back over the wire are identified by their content (Ref, Lang, Version, TextWidth, text)',
+                     'a text returned more often than it is stored (a Ref named twice in the request, two requested widths '
+                     'resolving to one text) is reproduced by the model and counted (answers_with_repeated_text) but is not a '
+                     'violation: the statement demands "at most once" for states only'],
+        trusted_base=['harness/impl/c20_impl.py', 'harness/world.py (loop-back transport)', 'model evaluated inside Coq with vm_compute'],
+        not_modelled=['which of several admissible texts is chosen as "best match" is not part of the property (soundness + '
+                      'group coverage only)',
+                      'the handlers between filter and wire are the identity in the model: they are covered by the '
+                      'correspondence and the oracle of the text_histories stream, not by a theorem',
+                      'GetMdDescription with a non-empty handle list (documented simplification: all or nothing) is not part '
+                      'of the statement and not checked'])
+
+
+def replay(ctx, rep):
+    """./check C20 --replay <file>: run the recorded case again on the implementation and print what it answers now"""
+    import json
+    stream, case = rep.get('stream'), rep.get('case')
+    print(json.dumps({k: v for k, v in rep.items() if k != 'case'}, indent=1)[:3000])
+    if stream == 'text_histories' and case:
+        res = ctx.impl('c20_impl', {'worlds': [], 'hist': [case]})
+        print('operations:')
+        for op in case['ops']:
+            print('  ', json.dumps(op)[:300])
+        print('answers of the implementation now (one per query, in order):')
+        for a in (res.get('hist') or [{}])[0].get('answers', [res]):
+            print('  ', json.dumps(a)[:600])
+    elif stream == 'texts' and case:
+        res = ctx.impl('c20_impl', {'worlds': [], 'texts': [case]})
+        print('case:', json.dumps(case)[:1500])
+        print('implementation now:', json.dumps(res.get('texts'))[:1500])
+    elif stream == 'queries' and case and case.get('query'):
+        q = {'mdib': case['mdib'], 'flag': case['flag'], 'queries': [], 'queries2': []}
+        q['queries2' if case.get('phase') == 2 else 'queries'].append(case['query'])
+        res = ctx.impl('c20_impl', {'worlds': [q]})
+        w = (res.get('worlds') or [{}])[0]
+        print('query:', json.dumps(case))
+        print('implementation now:', json.dumps(w.get('queries2' if case.get('phase') == 2 else 'queries', res))[:2000])
+    return 0
